@@ -191,6 +191,12 @@ func (e *Explorer) execute(prefix []int, tracing bool, recorded []string) (c *Ct
 		}
 	}()
 	e.scen.Body(c)
+	if len(c.Points) < len(prefix) && len(c.Fails) > 0 {
+		// the body stopped early because it observed a failure that the execution this prefix was taken from did not show: the code
+		// under test did not behave the same way twice. That is not a harness error; the failing execution is judged like any other
+		// (believed only if it reproduces from its own, shorter choice list), and the subtree below the prefix is not explored.
+		return c, divergedWithFailure{fmt.Sprintf("scenario %s: prefix has %d choices, the execution failed after %d points: %s", e.scen.Name, len(prefix), len(c.Points), c.Fails[0].Sig)}
+	}
 	if len(c.Points) < len(prefix) {
 		return c, HarnessError{fmt.Sprintf("replay divergence in scenario %s: prefix has %d choices, execution met only %d points", e.scen.Name, len(prefix), len(c.Points))}
 	}
@@ -231,6 +237,11 @@ func stripDigitsMC(s string) string {
 	}
 	return string(b)
 }
+
+// divergedWithFailure: see execute.
+type divergedWithFailure struct{ msg string }
+
+func (d divergedWithFailure) Error() string { return "replay divergence with a failure: " + d.msg }
 
 func pointStrings(c *Ctx) []string {
 	out := make([]string, len(c.Points))
@@ -275,6 +286,13 @@ func (e *Explorer) explore(prefix []int, depth int, prefixCost int) {
 		return
 	}
 	c, err := e.execute(prefix, false, nil)
+	if d, ok := err.(divergedWithFailure); ok {
+		e.Stats.Unreproducible = append(e.Stats.Unreproducible, "behaviour differed between two runs of one prefix: "+d.msg)
+		fmt.Fprintf(os.Stderr, "UNREPRODUCIBLE (the code under test did not behave the same way twice) %s\n", d.msg)
+		c.Choices = c.Choices[:len(c.Points)]
+		e.record(c)
+		return
+	}
 	if err != nil {
 		e.fatal(err)
 	}
@@ -371,6 +389,14 @@ func (e *Explorer) record(c *Ctx) {
 
 func (e *Explorer) addSample(c *Ctx, verdict string) {
 	t, err := e.execute(append([]int(nil), c.Choices...), true, nil)
+	if d, ok := err.(divergedWithFailure); ok {
+		// the traced re-run of an execution that held now fails: judged like any failing execution, no sample is kept
+		e.Stats.Unreproducible = append(e.Stats.Unreproducible, "behaviour differed between two runs of one execution: "+d.msg)
+		fmt.Fprintf(os.Stderr, "UNREPRODUCIBLE (the code under test did not behave the same way twice) %s\n", d.msg)
+		t.Choices = t.Choices[:len(t.Points)]
+		e.handleViolation(t, 0)
+		return
+	}
 	if err != nil {
 		e.fatal(err)
 	}
